@@ -214,8 +214,8 @@ def get_note_spelling(note, chord, last_pitch=None):
             octave -= 1
         elif note_spelling in ['Cb']:
             octave += 1
-        note_spelling = note_spelling + str(octave)
         new_note = music21.note.Note(note_spelling)
+        new_note.octave = octave  # set as a number: in the text form 'C-1' the '-' reads as a flat (C flat in octave 1)
         new_note.duration = music21.duration.Duration(note.duration)
     else:
         new_note = music21.note.Note(pitch % 12)
@@ -351,6 +351,13 @@ def _rest(quarter_length):
     return rest
 
 
+def _note_from_spelling(spelling):
+    """A note from (name, octave): the text form 'C-1' would read as C flat in octave 1"""
+    new_note = note.Note(spelling[0])
+    new_note.octave = spelling[1]
+    return new_note
+
+
 def chord_instrument_to_notes(chord, voice, part_name, ins_idx, last_spelling=None, curr_dynamic='mf', no_repeat=False,
                               last_pitch=None, last_is_silence=True):
     """
@@ -370,7 +377,7 @@ def chord_instrument_to_notes(chord, voice, part_name, ins_idx, last_spelling=No
             if n.is_note:
                 old_last_pitch = last_pitch
                 new_note, last_pitch = get_note_spelling(n, chord, last_pitch=last_pitch)
-                last_spelling = new_note.nameWithOctave
+                last_spelling = (new_note.name, new_note.octave)
                 if idx_note == 0 and ins_idx == 0:
                     new_note.addLyric(chord_to_musescore_lyric(chord))
                 if n.amp_figure != curr_dynamic:
@@ -385,7 +392,7 @@ def chord_instrument_to_notes(chord, voice, part_name, ins_idx, last_spelling=No
                 else:
                     try:
                         if last_spelling is not None and not last_is_silence:
-                            new_note = note.Note(last_spelling)
+                            new_note = _note_from_spelling(last_spelling)
                             new_note.duration = music21.duration.Duration(n.duration)
                             voice[-1].tie = tie.Tie('start')
                             new_note.tie = tie.Tie('stop')
@@ -404,7 +411,7 @@ def chord_instrument_to_notes(chord, voice, part_name, ins_idx, last_spelling=No
                     last_is_silence = True
                 try:
                     if last_spelling is not None and not last_is_silence:
-                        new_note = note.Note(last_spelling)
+                        new_note = _note_from_spelling(last_spelling)
                         new_note.duration = music21.duration.Duration(n.duration)
                         voice[-1].tie = tie.Tie('start')
                         new_note.tie = tie.Tie('stop')
